@@ -29,10 +29,15 @@ Definition in_range (z : Z) : bool := (1 <=? z)%Z && (z <=? 12)%Z.
 (* outcome of resolve_month_field_val: a value, an exception, or "outside the executable oracle instances" *)
 Inductive mres := MVal (v : value) | MRaise | MSkip.
 
-(* MonthLongStringMiddleware.resolve_month_field_val; result None = oracle domain exceeded *)
+(* MonthLongStringMiddleware.resolve_month_field_val; MSkip = oracle domain exceeded.
+   `isinstance(v, int)` also holds for bool: the long / abbreviation middlewares read True as 1 and False as 0
+   (out of range: unchanged); the int middleware only looks at str, so it returns a bool as it is.
+   A decimal string that int() refuses (more digits than sys.get_int_max_str_digits() after dropping leading zeros)
+   stays a string and is returned unchanged; py_int reads it as a number far out of range: unchanged as well. *)
 Definition resolve_long (v : value) : mres :=
   let as_int := match v with
                 | VInt z => Some (Some z)
+                | VBool b => Some (Some (if b then 1 else 0)%Z)      (* isinstance(True, int) holds *)
                 | VStr s => if str_isdecimal s then match int_of_decimal s with Some z => Some (Some z) | None => None end
                             else Some None
                 | _ => Some None
@@ -61,6 +66,7 @@ Definition resolve_long (v : value) : mres :=
 Definition resolve_abbrev (v : value) : mres :=
   let as_int := match v with
                 | VInt z => Some (Some z)
+                | VBool b => Some (Some (if b then 1 else 0)%Z)      (* isinstance(True, int) holds *)
                 | VStr s => if str_isdecimal s then match int_of_decimal s with Some z => Some (Some z) | None => None end
                             else Some None
                 | _ => Some None
